@@ -16,3 +16,11 @@ func (ex *Exec) verifyModel(pk, msg, sig Slice) Value {
 	good := ex.ts.Eq(ex.bytesTerm(sig), ex.sigOf(inv, mt, msg.len))
 	return ex.fromTerm(ex.ts.And(isKey, good))
 }
+
+func (ex *Exec) encTerm(vars []Value) *Term {
+	parts := make([]*Term, len(vars))
+	for i, v := range vars {
+		parts[i] = ex.toTerm(v, 8)
+	}
+	return ex.ts.Concat(parts...)
+}
